@@ -329,7 +329,10 @@ def r13_linearity(facts):
             cls = LV.scalar(lin.read(r)) if r is not None else LV.N
             n_slots += 1
             for msg in lin.control_on_adjoint:
-                c.bad(inst + "#control", where, "control flow or indexing depends on the adjoint: %s" % msg)
+                if lin.notes:
+                    c.unk(inst + "#control", where, "control flow or indexing may depend on the adjoint (%s), but a callee had no summary (%s)" % (msg, "; ".join(lin.notes)[:160]))
+                else:
+                    c.bad(inst + "#control", where, "control flow or indexing depends on the adjoint: %s" % msg)
             if cls == LV.L:
                 c.ok(inst + "#slots", where, "every slot is None or typed L (slot vector assembled dynamically)")
             elif cls == LV.C and not lin.notes:
@@ -340,7 +343,10 @@ def r13_linearity(facts):
                 c.unk(inst + "#slots", where, "slots could not be typed (%s)%s" % (cls, ": " + "; ".join(lin.notes)[:200] if lin.notes else ""))
             continue
         for msg in lin.control_on_adjoint:
-            c.bad(inst + "#control", where, "control flow or indexing depends on the adjoint: %s" % msg)
+            if lin.notes:
+                c.unk(inst + "#control", where, "control flow or indexing may depend on the adjoint (%s), but a callee had no summary (%s)" % (msg, "; ".join(lin.notes)[:160]))
+            else:
+                c.bad(inst + "#control", where, "control flow or indexing depends on the adjoint: %s" % msg)
         for i, slot in enumerate(r.items):
             n_slots += 1
             sinst = "%s#slot%d" % (inst, i)
